@@ -16,6 +16,7 @@ CONSTANTS ShapeSel,     \* set of shape indices explored
           MaxFaults,    \* total number of spontaneous failures (err / nil / panic)
           MaxDone,      \* total number of Done signals
           AllowKill,    \* the supervisor's context may be cancelled at any time
+          BadSignals,   \* subset of {"healthy", "done"}: refused signals a runnable may send (SvcBadSignal)
           FaultKinds    \* failure kinds explored, a subset of SpontaneousKinds.  ProcessDied distinguishes only "nil" (fine
                         \* for a DONE node), the kinds that look like a cancellation (CANCELED iff the context really is
                         \* cancelled) and the rest, so {"err", "nil", "canceled"} covers every case of DiedOutcome; "panic" and
@@ -46,9 +47,12 @@ Svc ==
         \/ pc[n] = "doneret" /\ SvcExit(n, "nil")
 
 Fault ==
-    \E n \in Nodes, k \in FaultKinds :
+    \/ \E n \in Nodes, k \in FaultKinds :
         /\ faults < MaxFaults /\ pc[n] = "run" /\ SetupDone(n)
         /\ SvcExit(n, k)
+    \/ \E n \in Nodes, sg \in BadSignals :          \* lifecycle mistakes: Done before Healthy, Healthy twice, Done twice, ..
+        /\ faults < MaxFaults /\ SetupDone(n)
+        /\ SvcBadSignal(n, sg)
 
 DoneSig == \E n \in Nodes : dones < MaxDone /\ SetupDone(n) /\ ~sawc[n] /\ SvcDone(n)
 
@@ -96,4 +100,5 @@ DeadRestarts == \A n \in AllNodes : DeadRestartsAt(n)
 \* every tree of the family really is an initial state (vacuity guard evaluated by TLC)
 ASSUME ShapeSel \subseteq 1..NumShapes
 ASSUME FaultKinds \subseteq SpontaneousKinds
+ASSUME BadSignals \subseteq {"healthy", "done"}
 =============================================================================
